@@ -8,6 +8,7 @@ import loop_traces as LT
 import translate_misc as TM
 from props import _loop
 
+ESCALATE = True     # cheap thorough tier: run it whenever an anchor file differs from the pinned fingerprint
 RULE = ("paired live runs (same seed): minimization=True on f vs minimization=False on -f, optimal_value v vs -v, for all ten "
         "optimizer classes incl. the success-history / self-configuring / PDP adaptation paths, all elitism and stop settings; "
         "every evaluated batch, every get_stats() series, the adaptation state, get_fittest() and the number of generations must "
